@@ -1,12 +1,14 @@
 #!/bin/bash
-# tools/seedregress.sh [budget] [filter] : re-run every kept seeded change against the first check that is recorded to catch it
-BUD=${1:-20}; FILT=${2:-}
+# tools/seedregress.sh [budget] [filter] [props] : re-run every kept seeded change against the first check that is recorded to catch it
+# (props: optional comma list - only changes whose first catching check is one of these)
+BUD=${1:-20}; FILT=${2:-}; PROPS=${3:-}
 V=$(cd "$(dirname "$0")/.." && pwd)
 cd $V
 for d in seeded/*${FILT}*/; do
   id=$(basename $d)
   prop=$(python3 -c "import json; m=json.load(open('$d/meta.json')); print((m.get('caught_by') or ['?'])[0])")
   [ "$prop" = "?" ] && { echo "$id: no check recorded"; continue; }
+  if [ -n "$PROPS" ] && ! echo ",$PROPS," | grep -q ",$prop,"; then continue; fi
   WT=$(mktemp -d /tmp/sr.XXXXXX); rmdir $WT
   git -C /repo worktree add -q --detach $WT HEAD || { echo "$id: worktree failed"; continue; }
   if ! git -C $WT apply $PWD/$d/patch.diff 2>/dev/null; then echo "$id: PATCH NO LONGER APPLIES"; git -C /repo worktree remove --force $WT; continue; fi
